@@ -202,6 +202,11 @@ def run(repo: Repo, rep: Report, tier: str) -> None:
     ds = [s for s in walk_no_nested(m2) if isinstance(s, ast.stmt) and norm(s) in ("setattr(primitive, dataset_keyword, self.data_set)", "dataset_keyword = _DATASET_KEYWORDS[cls_type_name]", "primitive._context_id = self.context_id")]
     rep.check(len(ds) == 3, "generic-loops", "dimse_messages.DIMSEMessage.message_to_primitive", "data set and context id handed to the primitive", "the data-set bytes and the context id must reach the primitive", mod=dm, node=m2)
     _delegate_c15(repo, rep, tier)
+    # ---- absent is None, not falsy ---------------------------------------------------------
+    from ..lints import zero_legal_truthiness
+    rep.rule("none-not-falsy", "Message IDs, Status and Priority are tested with `is None`: 0 is a legal value of each")
+    n_t = zero_legal_truthiness(repo, rep, "none-not-falsy", {"MessageID", "MessageIDBeingRespondedTo", "MoveOriginatorMessageID", "Status", "Priority"})
+    rep.counters["truthiness tests on zero-legal DIMSE fields"] = n_t
 
 
 def _delegate_c15(repo, rep, tier):
